@@ -13,9 +13,11 @@ REF_NOTE = ('trusts RefPEG (vf/refpeg.py), my independent evaluator written from
 
 CHECKS = {
     'C01': (
-        'property-based testing: Hypothesis-seeded grammar construction, reference oracle RefPEG (accept, consumed length, AST)',
-        'Generated-input search over grammars x inputs against an independent reference evaluator: ~4000 grammars x 6 inputs per quick run '
-        '(derived sentences, near misses, token soup), any start rule, consumed length observed through a wrapper rule. Exploration.',
+        'property-based testing: Hypothesis-seeded grammar construction + exhaustive small-scope enumeration, reference oracle RefPEG (accept, consumed length, AST)',
+        'Generated-input search over grammars x inputs against an independent reference evaluator: ~4000 random grammars x 6 inputs per quick run '
+        '(derived sentences, near misses, token soup), any start rule, consumed length observed through a wrapper rule; plus an EXHAUSTIVE tier: '
+        'every expression tree with <= 3 nodes (thorough: <= 4) over 8 leaves, as a rule and reached through a call, x every string over '
+        '{a, b, \',\', space} up to length 4 (thorough: 5), ~430k cases per quick run. Exploration with an exhaustive sub-space.',
         REF_NOTE, 'DESIGN.md §3 C01, §2.3'),
     'C02': (
         'property-based differential testing: model.parse vs exec(to_python_sourcecode).Parser().parse on generated grammars x inputs x settings x semantics; ast.parse/compile validity check',
